@@ -747,6 +747,7 @@ package raft
 //@   assume [A-LM] request.Term >= r.currentTerm && X <= r.commitIndex && inLog(X) ==> Lterm[X] == T
 //@   ensures [IS.shutdown] err != nil ==> Llast == old(Llast) && Lfirst == old(Lfirst) && r.commitIndex == old(r.commitIndex) && r.lastApplied == old(r.lastApplied) && r.currentTerm == old(r.currentTerm) && r.votedFor == old(r.votedFor)
 //@   ensures [IS.stale-term] err == nil && request.Term < entry(r.currentTerm) && old(r.state) != Shutdown ==> response.Term >= request.Term
+//@   ensures [IS.term-reply] err == nil ==> response.Term >= entry(r.currentTerm) && response.Term <= r.currentTerm && r.currentTerm >= entry(r.currentTerm)
 //@   at call r.snapshotStorage.NewSnapshotFile assert [IS.something-new] X > r.lastIncludedIndex && X > r.lastApplied && request.Term >= r.currentTerm
 //@   at call io.Copy assert [IS.chunk-identity] sfIndex[r.snapshot] == X && sfTerm[r.snapshot] == T
 //@   at call io.Copy assert [IS.offset] request.Offset == sfPos[r.snapshot] && sfWriter[r.snapshot] && !sfPublished[r.snapshot] && X > r.lastIncludedIndex && X > r.lastApplied
